@@ -69,21 +69,21 @@ func accepts(want []string, got string) bool {
 
 // S is one sequential differential run: a real database next to the model.
 type S struct {
-	c          *core.Ctx
-	r          *gen.Rng // the stream driving this run (c.R unless the run is replicated)
-	h          *Handle
-	m          *model.DB
+	c           *core.Ctx
+	r           *gen.Rng // the stream driving this run (c.R unless the run is replicated)
+	h           *Handle
+	m           *model.DB
 	budgetExtra int // added to the call budget of the next operation (size of its own input)
-	schemas    map[string]*gen.Schema
-	ever       map[string]map[string]bool // ids ever used, per collection
-	genIDs     map[string]bool            // every id clover generated in this run
-	ops        int
-	failed     bool   // a violation was recorded: stop the case
-	plan       string // plan kind of the last read (coverage only)
-	lastSt     *mon.OpStats
-	opCells    bool // record <operation|outcome|backend> coverage cells
-	recording  bool
-	transcript []string
+	schemas     map[string]*gen.Schema
+	ever        map[string]map[string]bool // ids ever used, per collection
+	genIDs      map[string]bool            // every id clover generated in this run
+	ops         int
+	failed      bool   // a violation was recorded: stop the case
+	plan        string // plan kind of the last read (coverage only)
+	lastSt      *mon.OpStats
+	opCells     bool // record <operation|outcome|backend> coverage cells
+	recording   bool
+	transcript  []string
 }
 
 // tr appends a line to the cross-backend transcript.
